@@ -125,6 +125,10 @@ def _record(issues_w, issues_e, rid, seed):
     sortkeys = [[rk[f][i.get(f, -1) if f == "ec_row" else (str(i.get(f, "")) if i.get(f, "") is not None else "")]
                  for f in fields] for i in srt]
     sortoi = [i["_oi"] for i in srt]
+    srt_rev = sort_issues(shuffled, reverse=True)
+    sortkeys_rev = [[rk[f][i.get(f, -1) if f == "ec_row" else (str(i.get(f, "")) if i.get(f, "") is not None else "")]
+                     for f in fields] for i in srt_rev]
+    sortoi_rev = [i["_oi"] for i in srt_rev]
     codes = [i.get("code") for i in issues_w]
     exported = [dict(i) for i in issues_w]
     json_ok = True
@@ -138,6 +142,7 @@ def _record(issues_w, issues_e, rid, seed):
     return {"id": rid, "texts": texts, "issues": evs, "sig": [sig(i) for i in issues_w],
             "sev": [1 if i.get("severity", 1) == 1 else 10 for i in issues_w],
             "errsig": [sig(i) for i in issues_e], "sortkeys": sortkeys, "sortoi": sortoi,
+            "sortkeysrev": sortkeys_rev, "sortoirev": sortoi_rev,
             "codes": codes, "codesafter": codes_after, "json_ok": json_ok}
 
 
@@ -203,6 +208,8 @@ def make_cases(ctx, n):
             sc = {"trial_type": {"HED": cat}, "resp": {"HED": "Label/#, " + compose(rng)}}
             if rng.random() < 0.5:
                 sc["other"] = {"HED": {"x": compose(rng), "y": compose(rng)}}
+                if rng.random() < 0.5:      # a second column whose name differs only in letter case (and keys that do)
+                    sc["Other"] = {"HED": {"x": compose(rng), "X": compose(rng)}}
             if rng.random() < 0.5:
                 sc["defs"] = {"HED": {"d%d" % j: rng.choice([", ", ","]).join(rng.sample(SCDEFS, rng.randint(1, 2)))
                                       for j in range(rng.randint(1, 2))}}
